@@ -124,12 +124,23 @@ func MustCfg(s string) Cfg {
 	return c
 }
 
-func (c Cfg) tableOpts() []extension.TableOption {
-	switch c.Align {
+func (c Cfg) alignMethod() (m extension.TableCellAlignMethod, ok bool) {
+	switch strings.TrimSuffix(c.Align, "-ro") {
 	case "attr":
-		return []extension.TableOption{extension.WithTableCellAlignMethod(extension.TableCellAlignAttribute)}
+		return extension.TableCellAlignAttribute, true
 	case "style":
-		return []extension.TableOption{extension.WithTableCellAlignMethod(extension.TableCellAlignStyle)}
+		return extension.TableCellAlignStyle, true
+	case "default":
+		return extension.TableCellAlignDefault, true
+	}
+	return 0, false
+}
+
+// tableOpts: the alignment method as an option of NewTable; with the suffix "-ro" it is handed over as a renderer option
+// instead (RendererOptions), the other documented channel.
+func (c Cfg) tableOpts() []extension.TableOption {
+	if m, ok := c.alignMethod(); ok && !strings.HasSuffix(c.Align, "-ro") {
+		return []extension.TableOption{extension.WithTableCellAlignMethod(m)}
 	}
 	return nil
 }
@@ -368,6 +379,9 @@ func (c Cfg) RendererOptions() []renderer.Option {
 	}
 	if c.HardWraps {
 		ro = append(ro, html.WithHardWraps())
+	}
+	if m, ok := c.alignMethod(); ok && strings.HasSuffix(c.Align, "-ro") {
+		ro = append(ro, extension.WithTableCellAlignMethod(m))
 	}
 	return ro
 }
